@@ -20,6 +20,10 @@ type Spec struct {
 	MinimalAnn int // 0: random annotation mixes; 1: every type carries every annotation (all-codes programs)
 	Typed       bool // unused (typed-variable templates are always part of the template set)
 	ExclHeaders bool // pool-token files carry a file-level "@ignore ALL" (inert while the file is excluded)
+	Twin        bool // the second declaring package starts with a byte-identical copy of the first one's first type (api/v1 vs api/v2)
+	Transit     bool // add a package that receives values of annotated types only through an intermediate package
+	Unrelated   bool // add an annotated package that nothing imports
+	FlipDecl    bool // variant used by C06: toggle the annotations of the first declaring package's first type
 }
 
 // PoolTokens: exclude-paths tokens that occur in generated file names.
@@ -85,13 +89,17 @@ func Build(spec Spec) *Built {
 	}
 
 	d0 := b.NewPkg("m/d0", "d0", "d0")
-	d1 := b.NewPkg("m/sub/d1x", "sub/d1x", "dalt")
+	d1name := "dalt"
+	if spec.Twin {
+		d1name = "dz" // same length as "d0": the two type files can then be byte-identical up to the package name
+	}
+	d1 := b.NewPkg("m/sub/d1x", "sub/d1x", d1name)
 	u0 := b.NewPkg("m/u0", "u0", "u0")
 	u1 := b.NewPkg("m/app/u1", "app/u1", "u1")
 	u2 := b.NewPkg("m/u2", "u2", "ualt")
 	bt.DPkgs = []*Pkg{d0, d1}
 	bt.UPkgs = []*Pkg{u0, u1, u2}
-	allowPool := []string{"u0", "m/u0", "u1", "m/app/u1", "ualt", "m/u2", "u2", "app/u1", "zzz", "m/d0", "dalt"}
+	allowPool := []string{"u0", "m/u0", "u1", "m/app/u1", "ualt", "m/u2", "u2", "app/u1", "zzz", "m/d0", d1name}
 
 	all := spec.MinimalAnn == 1
 	coin := func(num, den int) bool { return all || r.Chance(num, den) }
@@ -100,6 +108,7 @@ func Build(spec Spec) *Built {
 		t   *Type
 		env *Env
 	}
+	var twin *Type
 	var infos []tinfo
 	tmpls := AllTemplates()
 	nest := Nestings()
@@ -107,7 +116,11 @@ func Build(spec Spec) *Built {
 	ncur := r.Intn(len(nest))
 
 	for di, d := range bt.DPkgs {
-		ftypes := b.NewFile(d, "types.go")
+		tfn := "types.go"
+		if spec.Twin {
+			tfn = "a_types.go" // first file of the package: positions inside it do not depend on the other files
+		}
+		ftypes := b.NewFile(d, tfn)
 		fapi := b.NewFile(d, "api.go")
 		fuse := b.NewFile(d, "uses.go")
 		var fexcl *File
@@ -171,6 +184,20 @@ func Build(spec Spec) *Built {
 				t.Mutable["G"] = r.Chance(2, 3)
 				t.Mutable["MS"] = r.Chance(2, 3)
 			}
+			if spec.Twin && ti == 0 {
+				if di == 0 {
+					t.Immutable = true
+					t.Mutable["G"], t.Mutable["MS"] = true, false
+					cp := *t
+					twin = &cp
+				} else {
+					c := *twin
+					c.Pkg = d
+					c.Mutable = map[string]bool{"G": true, "MS": false} // byte-identical declaration
+					*t = c
+				}
+			}
+
 			tf := ftypes
 			inert := false
 			if fexcl != nil && ti == 1 && r.Chance(1, 2) {
@@ -577,6 +604,22 @@ func Build(spec Spec) *Built {
 				fex.Decls = append(fex.Decls, decls...)
 			}
 		}
+		if spec.Twin {
+			// writes to the @mutable and to an ordinary field of BOTH twin types in one function
+			var body []*Node
+			for _, inf := range infos {
+				if inf.t.Name != infos[0].t.Name || inf.t.Kind != "struct" {
+					continue
+				}
+				for _, tm := range tmpls {
+					if tm.Name == "mut-assign" || tm.Name == "mut-inc" || tm.Name == "assign" {
+						body = append(body, tm.Make(b, inf.t, inf.env)...)
+					}
+				}
+			}
+			n, _ := b.FuncNode(u, b.d("twins"), false, nil, fa, body)
+			fa.Decls = append(fa.Decls, n)
+		}
 		if spec.Hostile {
 			// files that END in a one-line top-level declaration carrying a violation
 			for _, f := range files {
@@ -596,6 +639,52 @@ func Build(spec Spec) *Built {
 				f.Decls = append(f.Decls, &Node{Pre: []*Line{b.line("var " + b.d("pad") + " = 0")}})
 			}
 		}
+	}
+	if spec.Transit && len(infos) > 0 {
+		// t0 hands out values of d-types; w0 imports only t0 (the annotated packages are indirect dependencies of w0)
+		t0 := b.NewPkg("m/t0", "t0", "t0")
+		w0 := b.NewPkg("m/w0", "w0", "w0")
+		tf := b.NewFile(t0, "t.go")
+		wf := b.NewFile(w0, "w.go")
+		for i, inf := range infos {
+			if inf.t.Kind != "struct" || i > 3 {
+				continue
+			}
+			g := &Func{Pkg: t0, Name: fmt.Sprintf("Get%d%s", i, inf.t.Name), File: tf}
+			gn := &Node{Fn: g, Doc: fnDoc(g)}
+			gn.Pre = []*Line{b.tl("func "+g.Name+"() *%T {", refT(inf.t, SubResult))}
+			c, cu := callNew(inf.t, inf.env)
+			gn.Kids = []*Node{b.stmt("return "+c, cu)}
+			gn.Post = []*Line{b.line("}")}
+			tf.Decls = append(tf.Decls, gn)
+			env2 := *inf.env
+			env2.Getter = g
+			var body []*Node
+			for _, tm := range tmpls {
+				if tm.NoImp && (tm.Name == "assign" || tm.Name == "inc" || tm.Name == "idx-map" || tm.Name == "method-call" || tm.Name == "mut-assign") {
+					body = append(body, tm.Make(b, inf.t, &env2)...)
+				}
+			}
+			n, _ := b.FuncNode(w0, b.d("w"), false, nil, wf, body)
+			wf.Decls = append(wf.Decls, n)
+		}
+	}
+	if spec.Unrelated {
+		z0 := b.NewPkg("m/z0", "z0", "z0")
+		zf := b.NewFile(z0, "z.go")
+		zt := &Type{Pkg: z0, Name: "Cfg", Kind: "struct", Immutable: true, Ctors: []string{"NewCfg"}, Mutable: map[string]bool{"G": true}}
+		zf.Decls = append(zf.Decls, b.TypeDeclNode(zt, zf))
+		n, fn := b.CtorNode(zt, "NewCfg", zf)
+		zf.Decls = append(zf.Decls, n)
+		zenv := &Env{New: fn}
+		var body []*Node
+		for _, tm := range tmpls {
+			if tm.Name == "assign" || tm.Name == "lit" || tm.Name == "new" || tm.Name == "mut-op" {
+				body = append(body, tm.Make(b, zt, zenv)...)
+			}
+		}
+		un, _ := b.FuncNode(z0, "Use", false, nil, zf, body)
+		zf.Decls = append(zf.Decls, un)
 	}
 	for _, d := range bt.DPkgs {
 		var keep []*File
